@@ -49,7 +49,12 @@ var typeByName = map[string]reflect.Type{
 // EV is an error value carrying a token.
 type EV struct{ ID int }
 
-func (e *EV) Error() string { return fmt.Sprintf("EV %d", e.ID) }
+func (e *EV) Error() string {
+	if e == nil {
+		return "EV <nil>"
+	}
+	return fmt.Sprintf("EV %d", e.ID)
+}
 
 func localType1() reflect.Type {
 	type L struct{ ID int }
